@@ -63,7 +63,27 @@ class ShapesGraph(object):
         self._shacl_functions: Dict[str, tuple] = {}
         self._shacl_target_types: Dict[str, 'RDFNode'] = {}
         self._use_js = False
+        self._check_lists()
         self._add_system_triples()
+
+    def _check_lists(self):
+        # Parameters, paths, conditions and node expressions read rdf:Lists with Graph.items(), which
+        # raises a raw ValueError for a list whose rdf:rest chain loops. Such a shapes graph is ill-formed.
+        g = self.graph
+        rdf_rest = rdflib.RDF.rest
+        finished = set()
+        for start in set(g.subjects(rdf_rest, None)):
+            chain = set()
+            node = start
+            while node is not None and node not in finished:
+                if node in chain:
+                    raise ShapeLoadError(
+                        "The rdf:List at {} has an rdf:rest chain that loops back into itself.".format(node),
+                        "https://www.w3.org/TR/shacl/#shapes-graph-well-formed",
+                    )
+                chain.add(node)
+                node = g.value(node, rdf_rest)
+            finished.update(chain)
 
     def enable_js(self):
         self._use_js = True
